@@ -15,11 +15,13 @@ LEVEL_TEXT = ("Unbounded proof over all finite graphs: for every node list witho
               "from the entry, the modelled depth-first numbering terminates within |nodes|+1 nested calls, gives the "
               "entry the number 1, assigns the nodes a permutation of 1..n, and numbers the source of every edge lower "
               "than its target unless the target reaches the source (the edge closes a cycle). The model is compared "
-              "with the real Graph.compute_rpo (Node.num and Graph.rpo) on generated graphs on every run.")
+              "with the real Graph.compute_rpo (Node.num and Graph.rpo) on generated graphs on every run, with and without "
+              "the handler marks (in_catch) that construct() leaves on the nodes, after histories of graph edits, and on "
+              "large graphs (wide ones, and paths of up to 4500 blocks, which the package's own recursion limit admits).")
 LEVEL_NOTE = ("Trusted: Coq kernel; coq/Dad/RpoModel.v as a rendering of post_order/compute_rpo (generator recursion as "
               "fuel, set membership as list membership, sorted() as 'unreached nodes first, then reverse finishing "
               "order'); the harness tools/props/c19.py. 'Back edge' is formalised as 'the target reaches the source'; "
-              "Python's recursion limit (graphs deeper than ~900 nested calls raise RecursionError) is not modelled.")
+              "Python's recursion limit is not modelled: a RecursionError counts as a failure on graphs of up to 4800 blocks (the package sets the limit to 5000 on import) and is ignored beyond.")
 TRUSTED = ["hand-written model coq/Dad/RpoModel.v of Graph.post_order and Graph.compute_rpo",
            "correspondence harness tools/props/c19.py (graph generators, Python statement of the numbering property)"]
 
@@ -48,6 +50,9 @@ def build(case):
         for j in l:
             g.add_catch_edge(nodes[i], nodes[j])
     g.entry = nodes[entry]
+    if len(case) > 5 and case[5]:              # blocks of exception handlers, as construct() marks them before the later renumberings
+        for i in case[5]:
+            nodes[i].in_catch = True
     return g, nodes
 
 
@@ -119,7 +124,21 @@ def gen(rng, tier, ctx):
                 e2[perm[a]] = [perm[b] for b in edges[a]]
                 c2[perm[a]] = [perm[b] for b in catch[a]]
             edges, catch, entry = e2, c2, perm[0]
-        cases.append((n, entry, edges, catch))
+        if any(catch) and rng.random() < 0.6:
+            # handler blocks: the targets of catch edges, then (to a fixed point) every other block all of whose predecessors
+            # are handler blocks - the marks construct() leaves on the nodes, under which compute_rpo is called again later
+            allp = [[a for a in range(n) if b in edges[a] or b in catch[a]] for b in range(n)]
+            marked = {b for l in catch for b in l if b != entry}
+            grew = True
+            while grew:
+                grew = False
+                for b in range(n):
+                    if b != entry and b not in marked and allp[b] and all(a in marked for a in allp[b]):
+                        marked.add(b)
+                        grew = True
+            cases.append((n, entry, edges, catch, None, sorted(marked)))
+        else:
+            cases.append((n, entry, edges, catch))
     return cases
 
 
@@ -135,7 +154,7 @@ def _reach(sucs, src):
 
 
 def oracle(case, res):
-    n, entry, edges, catch = case
+    n, entry, edges, catch = case[:4]
     sucs = [edges[i] + catch[i] for i in range(n)]
     if len(_reach(sucs, entry)) != n:
         return None                      # not a rooted graph: outside the property
@@ -158,7 +177,10 @@ def oracle(case, res):
 def stats(cases, results):
     d = {"graphs": len(cases), "rooted": 0, "with_unreachable_nodes": 0, "acyclic_rooted": 0, "with_catch_edges": 0,
          "nodes_total": 0, "edges_total": 0, "max_nodes": 0}
-    for (n, entry, edges, catch), r in zip(cases, results):
+    for c, r in zip(cases, results):
+        n, entry, edges, catch = c[:4]
+        d["with_handler_blocks"] = d.get("with_handler_blocks", 0) + (len(c) > 5 and bool(c[5]))
+        d["handler_blocks_with_catch_edges"] = d.get("handler_blocks_with_catch_edges", 0) + (len(c) > 5 and any(catch[i] for i in (c[5] or [])))
         sucs = [edges[i] + catch[i] for i in range(n)]
         rooted = len(_reach(sucs, entry)) == n
         d["rooted" if rooted else "with_unreachable_nodes"] += 1
@@ -177,7 +199,7 @@ def _nl(l):
 
 
 def coq_input(c):
-    n, entry, edges, catch = c
+    n, entry, edges, catch = c[:4]
     return "(%d%%nat, %d%%nat, [%s], [%s])" % (n, entry, "; ".join(_nl(l) for l in edges), "; ".join(_nl(l) for l in catch))
 
 
@@ -324,6 +346,15 @@ def gen_large(rng, tier, ctx):
         for l in edges + catch:
             rng.shuffle(l)
         cases.append((n, 0, [_dedup(l) for l in edges], [_dedup(l) for l in catch]))
+    # deep graphs: one long path (every block the only successor of the one before) with a few forward edges; the package
+    # raises the interpreter's recursion limit to 5000 when it is imported so that such graphs can be walked
+    for n in ((1500, 3000) if tier != "thorough" else (1100, 1500, 3000, 4500)):
+        edges = [[v + 1] for v in range(n - 1)] + [[]]
+        for _ in range(20):
+            a, b = sorted((rng.randrange(n), rng.randrange(n)))
+            if a != b and b not in edges[a]:
+                edges[a].append(b)
+        cases.append((n, 0, edges, [[] for _ in range(n)]))
     # if-without-else padded with a long chain of siblings:  0->1->2, 0->2, 0->3.. (all children of 0)
     n = 1400
     edges = [[] for _ in range(n)]
@@ -334,8 +365,8 @@ def gen_large(rng, tier, ctx):
 
 
 def oracle_large(case, res):
-    if isinstance(res, Err) and res.name == "RecursionError":
-        return None                  # Python's recursion limit is outside the model and the property
+    if isinstance(res, Err) and res.name == "RecursionError" and case[0] > 4800:
+        return None                  # beyond the recursion limit the package sets for itself (5000): outside the model and the property
     return oracle(case, res)
 
 
